@@ -42,3 +42,27 @@ def judge_cases_detail(ctx, specname, module, events, tag, cfg=None, chunk=4000,
     for r in parallel(one, chunks, n=par):
         out.update(r)
     return out
+
+
+def exhaustive_parallel(ctx, specdir, module, runs, workers=4, timeout=1500, par=4):
+    """runs = [(cfg, label, expect)]; expect None = must complete without error (counted in states/transitions),
+    expect "<Invariant>" = must be refuted with exactly that invariant (non-vacuity).  TLC runs side by side."""
+    def one(run):
+        cfg, label, expect = run
+        return ctx.tlc(specdir, module, cfg, workers=workers, timeout=timeout, label=label)
+    res = parallel(one, runs, n=par)
+    for (cfg, label, expect), r in zip(runs, res):
+        if expect is None:
+            if not r.ok:
+                raise Broken("TLC %s/%s: %r\n%s" % (module, cfg, r, r.out[-3000:]))
+            if r.distinct <= 1:
+                raise Broken("TLC %s/%s explored a trivial state space" % (module, cfg))
+            ctx.cov["states"] += r.distinct
+            ctx.cov["transitions"] += r.generated
+            ctx.log("TLC %s %s: %d generated / %d distinct, depth %d, %.1fs  (%s)" % (module, cfg, r.generated, r.distinct, r.depth, r.wall, label))
+        elif expect == "accepted":
+            if not r.ok:
+                raise Broken("the property spec rejects a variant the statement does not forbid (%s): %r" % (label, r))
+        elif r.violated != expect:
+            raise Broken("the model does not distinguish a broken variant from the property - vacuous (%s): %r" % (label, r))
+    return res
